@@ -607,5 +607,23 @@ def covWithGrad (k : K α) (X : List (List α)) : Except KErr (List (List α) ×
     .ok (es.map (fun row => row.map (·.1)),
          (List.range (nParameters k)).map (fun p => es.map (fun row => row.map (fun e => e.2.getD p (0.0 : α)))))
 
+/-- the round trip `self.reparameterize(&self.parameters())` followed by `covariance(X, X)` of the rebuilt kernel
+    (op `kernel.roundtrip`): the parameters of the rebuilt kernel and its covariance -/
+def roundTrip (k : K α) (X : List (List α)) : Except KErr (List α × List (List α)) := do
+  let k' ← reparameterize k (parameters k)
+  let m ← covMatrix k' X X
+  pure (parameters k', m)
+
+-- ---- textbook closed forms (Spec, NOT transcribed from the code) -----------------------------------------------------
+
+/-- Matérn covariance for the half-integer orders (Rasmussen & Williams, GPML eq. 4.17), `t = √(2ν)·‖x−x'‖/ℓ`:
+    `ν = 1/2: e^{-t}`,  `ν = 3/2: (1 + t) e^{-t}`,  `ν = 5/2: (1 + t + t²/3) e^{-t}`.  `sel = 0 | 1 | 2`. -/
+def maternClosed (sel : Nat) (l : α) (x y : List α) : α :=
+  let r := sqrt (sqDist x y) / l
+  match sel with
+  | 0 => exp (-r)
+  | 1 => let t := sqrt (3.0 : α) * r; ((1.0 : α) + t) * exp (-t)
+  | _ => let t := sqrt (5.0 : α) * r; ((1.0 : α) + t + t * t / (3.0 : α)) * exp (-t)
+
 end Model
 end Hand.Kernel
